@@ -5,6 +5,8 @@ pub mod c02;
 pub mod c03;
 pub mod c07;
 pub mod c08;
+pub mod c11;
+pub mod c12;
 pub mod c31;
 pub mod c36;
 
@@ -15,6 +17,8 @@ pub fn registry() -> &'static [Check] {
         Check { meta: &c03::META, run: c03::run, shards: (16, 16) },
         Check { meta: &c07::META, run: c07::run, shards: (16, 16) },
         Check { meta: &c08::META, run: c08::run, shards: (16, 16) },
+        Check { meta: &c11::META, run: c11::run, shards: (16, 16) },
+        Check { meta: &c12::META, run: c12::run, shards: (16, 16) },
         Check { meta: &c31::META, run: c31::run, shards: (8, 16) },
         Check { meta: &c36::META, run: c36::run, shards: (8, 16) },
     ];
